@@ -109,7 +109,8 @@ var c06 = gen.Register(&gen.Check[caseC06]{
 		for _, v := range gen.DictFixed(ref.N, gen.DictStride()) {
 			sv := SV{Hex: gen.H(v)}
 			out = append(out, caseC06{Op: "invert", S: sv, T: sv}, caseC06{Op: "square", S: sv, T: sv}, caseC06{Op: "mul", S: sv, T: SV{Hex: gen.H(v), Mont: true}},
-				caseC06{Op: "invert", S: SV{Hex: gen.H(v), Mont: true}, T: sv})
+				caseC06{Op: "invert", S: SV{Hex: gen.H(v), Mont: true}, T: sv},
+				caseC06{Op: "pow", S: sv, T: SV{Hex: "13"}}, caseC06{Op: "pow", S: sv, T: SV{Hex: gen.H(new(big.Int).Rsh(ref.N, 1))}}, caseC06{Op: "pow", S: SV{Hex: "13"}, T: sv})
 		}
 		for _, op := range []string{"add", "sub", "mul", "pow", "set"} {
 			c := mkC06(op, big.NewInt(7), two)
